@@ -87,6 +87,8 @@ impl<R: Read + io::Seek> ZipArchive<R> {
 //@use za_by_index_raw
 //@use za_by_name_with_optional_password
 //@use za_by_name
+//@use za_by_name_decrypt
+//@use za_is_empty
 //@use za_into_inner
 }
 } // verus!
